@@ -785,11 +785,20 @@ func c18Diagnostics(a *ChildArgs, r *rand.Rand) {
 	s.open(uri, "SELECT 1", 1)
 	ver := 2 + r.Intn(5)
 	s.change(uri, ver, []c18Change{{full: true, text: text}}, "didChange:full")
+	// a save after the change (without text, or carrying the same text) re-validates: what is published last must
+	// still be the diagnostics of the mirrored text at the document's version
+	saveKind := r.Intn(3)
+	switch saveKind {
+	case 1:
+		s.add(c18Step{Kind: "notification", Label: "textDocument/didSave", Bytes: lspNotif("textDocument/didSave", map[string]interface{}{"textDocument": map[string]interface{}{"uri": uri}})})
+	case 2:
+		s.add(c18Step{Kind: "notification", Label: "textDocument/didSave+text", Bytes: lspNotif("textDocument/didSave", map[string]interface{}{"textDocument": map[string]interface{}{"uri": uri}, "text": text})})
+	}
 	res := c18CheckSession(a, s, "diagnostics", true)
 	if res.Panic != "" || res.FrameErr != "" {
 		return
 	}
-	wit := map[string]interface{}{"text": text, "bad_lines_0based": badLines}
+	wit := map[string]interface{}{"text": text, "bad_lines_0based": badLines, "save": []string{"none", "didSave", "didSave with text"}[saveKind]}
 	var last *lspFrame
 	for i := range res.Frames {
 		f := &res.Frames[i]
@@ -814,7 +823,7 @@ func c18Diagnostics(a *ChildArgs, r *rand.Rand) {
 	}
 	json.Unmarshal(last.Params, &p)
 	if p.Version != ver {
-		a.Rec.Viol("C18/diagnostics/version", "the diagnostics it last published are those of that text and version", fmt.Sprintf("last published version %d, document version %d", p.Version, ver), wit)
+		a.Rec.Viol("C18/diagnostics/version/"+[]string{"after-change", "after-save", "after-save-with-text"}[saveKind], "the diagnostics it last published are those of that text and version", fmt.Sprintf("last published version %d, document version %d", p.Version, ver), wit)
 	}
 	_, errs := gosqlx.ParseWithRecovery(text)
 	if len(errs) != len(p.Diagnostics) {
